@@ -35,7 +35,7 @@ def instr(rng, tab, proc, mx, codes=None):
     ok = [c for c, (mn, mode, procs) in tab.items() if PROC_KEY[proc] in procs and c != 0]
     c = rng.choice(codes or ok)
     mn, mode, procs = tab[c]
-    n = operand_bytes(mn, mode, mx)
+    n = operand_bytes(mn, mode, mx if proc in ('65802', '65816') else '11')     # only the 16 bit processors have M and X
     if n == 0:
         return bytes([c])
     v = rng.choice(VALUE_CLASSES[n]) if rng.random() < 0.6 else rng.randrange(1 << (8 * n))
